@@ -1,6 +1,6 @@
 """C08 - what registration returns is exactly what authenticates; nothing else does."""
 import json, hashlib
-from harness import fw, impl, authsim, authcat, authrun, regsim, regcat, regrun
+from harness import srcdict, fw, impl, authsim, authcat, authrun, regsim, regcat, regrun
 
 TRUSTED = [
     "Coq 8.16.1 kernel; C08_key_bytes: canonical COSE key bytes survive parse/re-encode unchanged (CBOR round-trip theorem, all well-formed values); chain/cross theorems under explicit oracle hypotheses (signature completeness / key separation)",
@@ -33,6 +33,10 @@ def run(tier, seed):
         s.cred_slot = slot % 3
         slot += 1
         s.cred_id = hashlib.sha256(f"{fmt}/{kind}/{s.cred_slot}".encode()).digest()[: rng.choice([16, 32])]
+        if slot % 3 == 1:
+            # ids are opaque: byte patterns that mean something elsewhere in authenticator data mean nothing inside an id
+            pats = [bytes.fromhex("a301634f4b500327206745643235353139"), bytes.fromhex("a5010203262001"), b"\xef\xbb\xbf"] + srcdict.blobs()
+            s.cred_id = s.cred_id[: (0, 1, 7)[(slot // 3) % 3]] + pats[(slot // 3) % len(pats)] + s.cred_id[:2]
         s.count = rng.choice([0, 1, 100])
         pd, reg = regsim.build(s)
         pol = regrun.policy_of(pd)
@@ -54,7 +58,7 @@ def run(tier, seed):
             a_s.stored = stored_count
             a_s.challenge = rng.randbytes(32)
             # sign with THIS credential's key (Scn.build uses slot 0; rebuild with the right slot)
-            cdj = authsim.client_data("webauthn.get", a_s.challenge, a_s.origin)
+            cdj = (b"", b"\xef\xbb\xbf", b" ")[(slot + step) % 3] + authsim.client_data("webauthn.get", a_s.challenge, a_s.origin) + (b"", b"\n")[step % 2]      # what the client serialised is what was hashed
             ad = authsim.authdata(a_s.rp_id, 0x05, a_s.count)
             sig = cred.sign(ad + hashlib.sha256(cdj).digest())
             a = authsim.Assertion(cred, stored_id, cdj, ad, sig)
@@ -150,7 +154,7 @@ def run(tier, seed):
         # (3) control: A against A
         A.run_case(impl.AuthPolicy(ch, "example.com", "https://example.com", ka, 0, False), a1, "record", "accept", "A-assertion-vs-A-key")
     A.close(); B.close()
-    fw.env_invariance(chk, "auth")          # the same seeded cases under -O / -OO, warnings-as-errors, other TZ / locale, a private CA bundle
+    fw.env_invariance(chk, "auth", "reg")          # the same seeded cases under -O / -OO, warnings-as-errors, other TZ / locale, a private CA bundle
     return fw.finish(chk, ob, br, TRUSTED,
                      ["two credentials of the run are 'distinct' when their public key bytes differ"],
                      RULE, "coqc -Q . PW Properties/C08.v; thorough: coqchk -o")
